@@ -4,6 +4,7 @@ use std::io::{self, BufRead, Write};
 
 mod util;
 mod dom_parse;
+mod dom_hdr;
 
 fn main() {
     // panics inside the code under test are outcomes, not crashes; keep stderr quiet
@@ -26,6 +27,7 @@ fn main() {
         let ans = match dom {
             "REQ" => dom_parse::req(rest),
             "RESP" => dom_parse::resp(rest),
+            "HDR" => dom_hdr::hdr(rest),
             _ => "BAD-DOMAIN".to_string(),
         };
         let _ = writeln!(out, "{}", ans);
